@@ -14,7 +14,7 @@
 (* = list position of the parent feature, 0 for none, -1 for a feature that  *)
 (* is no longer in the record (stale link).                                  *)
 (***************************************************************************)
-EXTENDS RecordSM, TLC, Json, IOUtils
+EXTENDS RecordSM, Order, TLC, Json, IOUtils
 VARIABLE l
 Trace == ndJsonDeserialize(IOEnv.TRACE_FILE)
 
@@ -32,10 +32,11 @@ AbsState(obs) ==
 NumberedFailed(list, what) ==
     (IF \E i \in DOMAIN list : list[i].num # i THEN {what \o "_numbered_1_to_n_in_record_order"} ELSE {})
     \cup (IF \E i \in DOMAIN list : list[i].fetch # i THEN {what \o "_number_identifies_same_feature"} ELSE {})
-(* location order, stated for the features that do not span the origin (those sort first whatever their start) *)
-InLocationOrder(locs) ==
-    LET plain == SelectSeq(locs, LAMBDA x : ~Bridges(x))
-    IN  \A i \in 1..(Len(plain) - 1) : OuterStart(plain[i]) <= OuterStart(plain[i + 1])
+(* location order of areas as Order.tla states it: those spanning the origin first (by where they start before the origin),
+   then by start, of equal starts the longer first; nothing is listed behind an area it has to precede *)
+InLocationOrder(uni, locs) ==
+    LET R == [L |-> uni.L, circ |-> uni.circ]
+    IN  \A i, j \in DOMAIN locs : i < j => ~AreaMustBefore(R, locs[j], locs[i])
 Inside(uni, obs, loc) == {g \in Rng(obs.genes) : Contains(loc, uni.genes[g].loc)}
 RegionOfGene(uni, obs, g) ==
     LET holders == {i \in DOMAIN obs.regions : Contains(obs.regions[i].loc, uni.genes[g].loc)}
@@ -43,10 +44,10 @@ RegionOfGene(uni, obs, g) ==
 StateFailed(uni, obs) ==
     NumberedFailed(obs.protos, "protocluster") \cup NumberedFailed(obs.subs, "subregion")
     \cup NumberedFailed(obs.cands, "candidate") \cup NumberedFailed(obs.regions, "region")
-    \cup (IF ~InLocationOrder([i \in DOMAIN obs.protos |-> uni.areas[obs.protos[i].id].extent]) THEN {"protoclusters_in_location_order"} ELSE {})
-    \cup (IF ~InLocationOrder([i \in DOMAIN obs.subs |-> uni.areas[obs.subs[i].id].extent]) THEN {"subregions_in_location_order"} ELSE {})
-    \cup (IF ~InLocationOrder([i \in DOMAIN obs.cands |-> obs.cands[i].loc]) THEN {"candidates_in_location_order"} ELSE {})
-    \cup (IF ~InLocationOrder([i \in DOMAIN obs.regions |-> obs.regions[i].loc]) THEN {"regions_in_location_order"} ELSE {})
+    \cup (IF ~InLocationOrder(uni, [i \in DOMAIN obs.protos |-> uni.areas[obs.protos[i].id].extent]) THEN {"protoclusters_in_location_order"} ELSE {})
+    \cup (IF ~InLocationOrder(uni, [i \in DOMAIN obs.subs |-> uni.areas[obs.subs[i].id].extent]) THEN {"subregions_in_location_order"} ELSE {})
+    \cup (IF ~InLocationOrder(uni, [i \in DOMAIN obs.cands |-> obs.cands[i].loc]) THEN {"candidates_in_location_order"} ELSE {})
+    \cup (IF ~InLocationOrder(uni, [i \in DOMAIN obs.regions |-> obs.regions[i].loc]) THEN {"regions_in_location_order"} ELSE {})
     (* C08: every area lists exactly the genes its location contains, whatever the build order *)
     \cup (IF \E i \in DOMAIN obs.protos : Rng(obs.protos[i].kids) # Inside(uni, obs, uni.areas[obs.protos[i].id].extent) THEN {"protocluster_lists_contained_genes"} ELSE {})
     \cup (IF \E i \in DOMAIN obs.protos : Rng(obs.protos[i].defs) #
